@@ -70,3 +70,26 @@ Section Sym.
     intros i Hi. rewrite E' by exact Hi. rewrite E by exact Hi. symmetry. apply rounds_S.
   Qed.
 End Sym.
+
+(** every word of the state after at least one double round is the result of an [add] or a
+    [rotr], so any predicate that holds of all such results (e.g. "< 2^32") holds of the state *)
+Section Bounded.
+  Variables (add xor : N -> N -> N) (rotr : N -> N -> N) (P : N -> Prop).
+  Hypothesis Hadd : forall a b, P (add a b).
+  Hypothesis Hrot : forall k x, P (rotr k x).
+
+  Lemma dround_bounded x : shape 4 x -> Forall P (flat (dround add xor rotr x)).
+  Proof.
+    destruct x as [a b c d]. intros (Ha & Hb & Hc & Hd). cbn in Ha, Hb, Hc, Hd.
+    explode a. explode b. explode c. explode d.
+    vm_compute. repeat constructor; first [apply Hadd | apply Hrot].
+  Qed.
+
+  Lemma rounds_bounded n x : shape 4 x -> Forall P (flat x) -> Forall P (flat (rounds add xor rotr n x)).
+  Proof.
+    revert x. induction n as [|n IH]; intros x Hx HP; [exact HP|].
+    rewrite (rounds_S add xor rotr n x).
+    destruct (dround_narrow add xor rotr x Hx) as [_ Hs].
+    apply IH; [exact Hs | now apply dround_bounded].
+  Qed.
+End Bounded.
